@@ -3,6 +3,7 @@ package main
 import (
 	"bufio"
 	"bytes"
+	"context"
 	"crypto/sha1"
 	"encoding/base64"
 	"fmt"
@@ -10,6 +11,7 @@ import (
 	"math/rand"
 	"net"
 	"net/http"
+	"net/http/cookiejar"
 	"net/url"
 	"sort"
 	"strings"
@@ -1046,11 +1048,77 @@ type replySpec struct {
 	extraHeader []string
 }
 
+// jarSubcheck (oracle only): a Dialer with a cookie jar and a caller header with zero, one or several
+// Cookie values. Every value the caller passed is in the request (C14: caller headers are included);
+// without a caller Cookie the jar's cookie is.
+func jarSubcheck(sc *scenario, r *rand.Rand) {
+	jar, _ := cookiejar.New(nil)
+	u, _ := url.Parse("http://example.com/chat")
+	jar.SetCookies(u, []*http.Cookie{{Name: "session", Value: "jar"}})
+	var callerCookies []string
+	switch r.Intn(4) {
+	case 1:
+		callerCookies = []string{"a=1"}
+	case 2:
+		callerCookies = []string{"a=1", "b=2"}
+	case 3:
+		callerCookies = []string{"a=1; c=3", "b=2", "d=4"}
+	}
+	var hdr http.Header
+	if callerCookies != nil {
+		hdr = http.Header{"Cookie": callerCookies, "X-Custom": {"v"}}
+	}
+	t := newTConn(&evlog{})
+	t.quiet = true
+	t.dynQ = append(t.dynQ, func(w []byte) []byte { return replyFor(w, 0) })
+	d := &websocket.Dialer{Jar: jar, NetDialContext: func(ctx context.Context, network, addr string) (net.Conn, error) { return t, nil }}
+	var c *websocket.Conn
+	var err error
+	func() {
+		defer func() {
+			if p := recover(); p != nil {
+				sc.violate("Dial with a cookie jar panicked: %v", p)
+			}
+		}()
+		c, _, err = d.Dial("ws://example.com/chat", hdr)
+	}()
+	if err != nil || c == nil {
+		sc.violate("Dial with a cookie jar and caller cookies %q failed: %v", callerCookies, err)
+		return
+	}
+	req, perr := http.ReadRequest(bufio.NewReader(bytes.NewReader(t.wire)))
+	if perr != nil {
+		sc.violate("Dial with a cookie jar wrote an unparsable request: %v", perr)
+		return
+	}
+	all := strings.Join(req.Header["Cookie"], "; ")
+	for _, v := range callerCookies {
+		for _, pair := range strings.Split(v, "; ") {
+			found := false
+			for _, have := range strings.Split(all, "; ") {
+				if have == pair {
+					found = true
+				}
+			}
+			if !found {
+				sc.violate("caller passed Cookie values %q (Dialer has a cookie jar); the request carries %q: %q is missing", callerCookies, req.Header["Cookie"], pair)
+			}
+		}
+	}
+	if callerCookies == nil && !strings.Contains(all, "session=jar") {
+		sc.violate("the jar's cookie for the URL is not in the request (Cookie: %q)", req.Header["Cookie"])
+	}
+	sc.tag("cli:jar")
+}
+
 func runClientScenario(seed int64) *scenario {
 	r := rand.New(rand.NewSource(seed))
 	sc := &scenario{kind: "cli", seed: seed}
 	g := &hGen{rng: r, sc: sc}
 	log := &evlog{}
+	if seed%8 == 3 {
+		jarSubcheck(sc, rand.New(rand.NewSource(seed)))
+	}
 
 	scheme := g.pick("ws", "ws", "ws", "ws", "http", "wss", "", "WS", "ftp")
 	host := g.pick("example.com", "example.com:8080", "[::1]:9000", "127.0.0.1", "sub.example.org:80")
